@@ -635,7 +635,7 @@ class _Bytes(Kind):
         arr = mk("!bytes", z3.ArraySort(z3.IntSort(), z3.IntSort()))
         n = mk("!len", z3.IntSort())
         ctx.assume(n >= 0)
-        return BytesV(arr, n, mutable=self.mutable, fresh=False)
+        return BytesV(arr, n, mutable=self.mutable, fresh=self.mutable)  # a bytearray field is owned by its object
 
     def sort(self):
         raise EngineLimit("Bytes has no single sort")
